@@ -156,7 +156,9 @@ func (x *Exec) load(st *State, lv *lval) Val {
 		return Val{T: fmt.Sprintf("(select %s %s)", b.T, lv.idx.T), Sort: es, GoT: lv.typ}
 	case "mapidx":
 		b := x.load(st, lv.base)
-		return x.vc.mapVal(b, lv.idx.T)
+		v := x.vc.mapVal(b, lv.idx.T)
+		v.T = ite(x.vc.mapDom(b, lv.idx.T), v.T, x.vc.zero(v.Sort))
+		return v
 	}
 	panic(unsupported("load of lvalue kind " + lv.kind))
 }
